@@ -701,7 +701,7 @@ def run(ctx):
 
 
 MANIFEST_ENTRY = {
-    "technique": "static analysis: abstract evaluation (rules/absint.py) of ConfigFile::new, CfgFileVisitor::visit_map, FieldVisitor::visit_str and LocalesOrNamespaces::new / Namespace::new / find_file over small configurations and a modelled file system, oracle from the statement; MIR who-constructs check for every configuration error; MIR dominance / push-pop rules as fallback",
+    "technique": "static analysis: abstract evaluation (rules/absint.py) of ConfigFile::new, CfgFileVisitor::visit_map (incl. inherits tables with chains, cycles, self reference: kept entry for entry), FieldVisitor::visit_str and LocalesOrNamespaces::new / Namespace::new / find_file over small configurations and a modelled file system, oracle from the statement; an unavailable evaluation is itself reported; MIR who-constructs check for every configuration error; MIR dominance / push-pop rules alongside as fallback",
     "level_text": "Finite abstract evaluation: all (locales, namespaces) lists of the universe, 17 field sequences and 12 directory layouts are interpreted; default-first normalisation, every documented rejection, ignored fields / manifest text and the exact files probed are compared with the statement. toml and the file system are modelled, not run.",
     "level_note": "Trusted: toml/serde drive the visitor as documented. Not decided: the files opened for a concrete layout.",
 }
